@@ -209,6 +209,101 @@ Definition resolves_to (s : string) (u : unit) : bool :=
 Definition coef_of (u : unit) : option literal :=
   match u_conv u with Linear c | Reciprocal c => Some c | Temperature _ _ => None end.
 
+(* ------------------------------------------------------------------ table well-formedness (decidable) *)
+Definition inverse_pair (t f : tempfn) : bool :=
+  match t, f with
+  | TF_celsius_to_kelvin, TF_kelvin_to_celsius
+  | TF_fahrenheit_to_kelvin, TF_kelvin_to_fahrenheit
+  | TF_kelvin_to_kelvin, TF_kelvin_to_kelvin => true
+  | _, _ => false
+  end.
+(* a coefficient is a positive finite number whose dumped decimal rounds to the dumped bits; the two
+   function pointers of a temperature unit are an inverse pair *)
+Definition unit_wf (u : unit) : bool :=
+  match u_conv u with
+  | Linear c | Reciprocal c => (literal_ok c && (0 <? l_m c) && negb (qzero (lit_Q c)))%bool
+  | Temperature t f => inverse_pair t f
+  end.
+
+Fixpoint list_Z_eqb (a b : list Z) : bool :=
+  match a, b with
+  | [], [] => true
+  | x :: a', y :: b' => ((x =? y) && list_Z_eqb a' b')%bool
+  | _, _ => false
+  end.
+(* the identification of the temperature function pointers made by the translator, re-validated:
+   each temperature unit has a probe row, and the transcribed functions reproduce, bit for bit, what the
+   function pointers returned on the probe points *)
+Definition temp_probe_row_ok (row : Z * list Z * list Z) : bool :=
+  let '(idx, tos, froms) := row in
+  match filter (fun u => u_idx u =? idx) all_units with
+  | [u] =>
+      match u_conv u with
+      | Temperature t f =>
+          (list_Z_eqb (map (fun p => bits_of_num (tempfn_apply fl t (num_of_bits p))) temp_probes) tos &&
+           list_Z_eqb (map (fun p => bits_of_num (tempfn_apply fl f (num_of_bits p))) temp_probes) froms)%bool
+      | _ => false
+      end
+  | _ => false
+  end.
+Definition temp_probes_ok : bool :=
+  (forallb temp_probe_row_ok temp_probe_results &&
+   forallb (fun u => match u_conv u with
+                     | Temperature _ _ => existsb (fun row => fst (fst row) =? u_idx u) temp_probe_results
+                     | _ => true end) all_units &&
+   Nat.leb 8 (List.length temp_probes))%bool.
+
+(* ------------------------------------------------------------------ prefixed names *)
+Definition metric_prefixes : list (string * Z) :=
+  [("yotta", 24); ("zetta", 21); ("exa", 18); ("peta", 15); ("tera", 12); ("giga", 9); ("mega", 6);
+   ("kilo", 3); ("hecto", 2); ("deca", 1); ("deka", 1); ("deci", -1); ("centi", -2); ("milli", -3);
+   ("micro", -6); ("nano", -9); ("pico", -12); ("femto", -15); ("atto", -18); ("zepto", -21); ("yocto", -24)]%string.
+Definition binary_prefixes : list (string * Z) :=
+  [("kibi", 10); ("mebi", 20); ("gibi", 30); ("tebi", 40); ("pebi", 50); ("exbi", 60); ("zebi", 70); ("yobi", 80)]%string.
+Definition dim_words : list (string * Z) := [("", 1); ("square ", 2); ("cubic ", 3)]%string.
+
+Fixpoint strip_prefix (p s : string) : option string :=
+  match p with
+  | EmptyString => Some s
+  | String a p' => match s with
+                   | String b s' => if Ascii.eqb a b then strip_prefix p' s' else None
+                   | EmptyString => None
+                   end
+  end.
+Definition is_linear (u : unit) : bool := match u_conv u with Linear _ => true | _ => false end.
+
+(* every (u, b, k): some identifier of the linear unit u reads  dim ++ prefix ++ rest  (dim one of
+   "", "square ", "cubic "; rest non-empty) and  dim ++ rest  is an identifier of another linear unit b
+   of the same category; k = prefix exponent * dimension *)
+Definition prefix_hits (table : list (string * Z)) : list (unit * unit * Z) :=
+  flat_map (fun u =>
+    if is_linear u then
+      flat_map (fun i =>
+        flat_map (fun dd : string * Z =>
+          match strip_prefix (fst dd) i with
+          | None => []
+          | Some tail =>
+              flat_map (fun pk : string * Z =>
+                match strip_prefix (fst pk) tail with
+                | None | Some EmptyString => []
+                | Some rest =>
+                    map (fun b => (u, b, snd pk * snd dd))
+                        (filter (fun b => (negb (unit_eqb b u) && String.eqb (u_cat b) (u_cat u) && is_linear b &&
+                                           str_in (fst dd ++ rest)%string (u_ids b))%bool) all_units)
+                end) table
+          end) dim_words) (u_ids u)
+    else []) all_units.
+
+(* the coefficient as typed (shortest decimal) and as held (exact value of the f64) *)
+Definition coef_dec (u : unit) : Q := match coef_of u with Some c => lit_Q c | None => 0%Q end.
+Definition coef_exact (u : unit) : Q :=
+  match coef_of u with
+  | Some c => match Q_of_num (num_of_bits (l_bits c)) with Some q => q | None => 0%Q end
+  | None => 0%Q
+  end.
+Definition Qpow2 (e : Z) : Q :=
+  match e with Z0 => 1%Q | Zpos p => inject_Z (2 ^ Zpos p) | Zneg p => (1 # Z.to_pos (2 ^ Zpos p))%Q end.
+
 (* ------------------------------------------------------------------ printers (correspondence) *)
 Open Scope string_scope.
 Definition show_uerr (e : uerr) : string :=
@@ -231,11 +326,22 @@ Fixpoint dec_digits (fuel : nat) (z : Z) (acc : string) : string :=
   end.
 Definition show_Z (z : Z) : string := dec_digits 20 z "".
 
-(* UNITS stream: one identifier pair, several magnitudes (bit patterns); both units are resolved
-   once per line, exactly as convert would resolve them for every magnitude *)
+(* UNITS stream: one identifier pair, several magnitudes (bit patterns).  [convert_many] resolves the
+   two identifiers once and then runs the body of convert for every magnitude; it equals
+   map (fun v => convert A v from to) (UnitsLaws.convert_many_spec), and is only there to make the
+   correspondence run fast. *)
+Definition convert_many (A : arith) (fixed : bool) (vs : list (T A)) (from_unit to_unit : string)
+  : list (ures (T A)) :=
+  match resolve_unit from_unit with
+  | UErr e => map (fun _ => UErr e) vs
+  | UOk from =>
+      match resolve_unit to_unit with
+      | UErr e => map (fun _ => UErr e) vs
+      | UOk to => map (fun v => if fixed then convert_units_fixed A v from to else convert_units A v from to) vs
+      end
+  end.
 Definition show_units_line (fixed : bool) (from to : string) (bits : list Z) : string :=
-  join_comma (map (fun b =>
-    show_conv ((if fixed then convert_fixed fl else convert fl) (num_of_bits b) from to)) bits).
+  join_comma (map show_conv (convert_many fl fixed (map num_of_bits bits) from to)).
 Definition show_resolve (s : string) : string :=
   match resolve_unit s with UOk u => "OK:" ++ show_Z (u_idx u) | UErr e => show_uerr e end
   ++ "|" ++ (match resolve_unit s, find_unit s with UOk _, Some _ | UErr _, None => "1" | _, _ => "0" end).
